@@ -188,9 +188,9 @@ class C18(HistoryProperty):
 
     def gen_case(self, rng, tier):
         subst = rng.random() < 0.5
-        cfg = gen.swarm_cfg(rng, off=("shape_change",) + (("cached", "derive") if subst else ()))
+        cfg = gen.swarm_cfg(rng, off=("shape_change",) + (("cached", "derive") if subst else ()), on=("dsclass",))
         spec = gen.gen_spec(rng, cfg)
-        inner = [n["id"] for n in spec["nodes"] if n["k"] in ("switch", "case", "coalesce", "bind", "map", "template", "apply")]
+        inner = [n["id"] for n in spec["nodes"] if n["k"] in ("switch", "case", "coalesce", "bind", "map", "template", "apply", "dsclass")]
         spec["roots"] = list(dict.fromkeys(spec["roots"] + rng.sample(inner, min(len(inner), rng.randint(0, 2)))))
         spec = gen.prune(spec)
         if subst:
@@ -199,6 +199,9 @@ class C18(HistoryProperty):
                     n["cache"] = "nocache"
         ops = gen_history(rng, cfg, spec, ops_kinds=("evaluate", "evaluate", "evaluate", "call", "validate", "keys", "explain"))
         targets = [n["id"] for n in spec["nodes"] if n["k"] == "dataset" and n["id"] not in spec["roots"]]
+        # dataset classes (as members of other dataset classes, arguments, branches) are evaluated through requests too
+        bases = {n.get("base") for n in spec["nodes"] if n["k"] == "dsclass"}
+        targets += [n["id"] for n in spec["nodes"] if n["k"] == "dsclass" and n["id"] not in spec["roots"] and n["id"] not in bases]
         for op in ops:
             if rng.random() < 0.15:
                 op["o"] = dict(op["o"], LABREA={"CACHE": {rng.choice(["DISABLED", "DISABLE"]): True}})
